@@ -135,11 +135,17 @@ CostFindings(buf, ev, pre) ==
 \*   CostA : allocated during the call <= K1 * |buf| + K2 * (bytes the result holds) + C0
 \*   CostH : bytes the result holds    <= KH * Received + CH        (KH: one decoded value per input byte, generously)
 KH == 1024   CHkib == 256
+KM == 4      CMkib == 1024
 AllocFindings(buf, ev, pre) ==
   LET recv == Len(buf) + TmWire(pre) IN
   (IF ev.alloc.total_kib > (K1 * Len(buf)) \div 1024 + K2 * ev.alloc.held_kib + C0kib
      THEN {<<"C15", "cost", "alloc", IF ev.nout > 64 THEN "many-packets" ELSE "few-packets">>} ELSE {})
   \cup (IF ev.alloc.held_kib > (KH * recv) \div 1024 + CHkib THEN {<<"C15", "cost", "held", Shape(pre)>>} ELSE {})
+  \* CostM : bytes that reallocations may have had to copy (old size of every block passed to realloc) <= KM * allocated + CM.
+  \*         Geometric growth keeps this below the allocated total (measured: <= 1.0 x); growing a vector by one element
+  \*         per packet / set / record makes it quadratic ("cost does not grow quadratically with the number of ...").
+  \cup (IF "moved_kib" \in DOMAIN ev.alloc /\ ev.alloc.moved_kib > KM * ev.alloc.total_kib + CMkib
+          THEN {<<"C15", "cost", "realloc-copy", IF ev.nout > 64 THEN "many-packets" ELSE "few-packets">>} ELSE {})
 
 EvParsed == /\ IsEvent("parsed")
             /\ pend # <<>> /\ pend[1].p = Rec[l].p
